@@ -1,11 +1,16 @@
 #!/bin/sh
-# usage: tools/run_seed.sh <seed dir> <ID> [tier]  -- applies the patch to /repo, runs the check, reverts
+# usage: tools/run_seed.sh <seed dir> <ID> [tier]
+# Applies the seeded change to a scratch worktree of /repo (HEAD), runs the check against it (VERIF_REPO), removes the worktree.
+# /repo itself is never modified.  The evidence file of the clean tree is preserved.
 SD=$1; ID=$2; TIER=${3:-quick}
 cd /verif
-git -C /repo diff --quiet || { echo "/repo dirty"; exit 2; }
-git -C /repo apply /verif/$SD/patch.diff || exit 2
+WT=/tmp/wt_seedrun_$ID_$$
+git -C /repo worktree add -q --detach $WT HEAD || exit 2
+cp /repo/abacusnbody/version.py $WT/abacusnbody/version.py 2>/dev/null
+cp -r /repo/abacusutils.egg-info $WT/ 2>/dev/null
+git -C $WT apply /verif/$SD/patch.diff || { git -C /repo worktree remove --force $WT; exit 2; }
 cp evidence/$ID.json /tmp/ev_$ID.json 2>/dev/null
-./check $ID --tier $TIER > /tmp/seedrun_$ID.txt 2>&1; RC=$?
-git -C /repo checkout -- .
+VERIF_REPO=$WT ./check $ID --tier $TIER > /tmp/seedrun_$ID.txt 2>&1; RC=$?
 cp /tmp/ev_$ID.json evidence/$ID.json 2>/dev/null
+git -C /repo worktree remove --force $WT
 echo "check $ID on $SD: exit=$RC"; grep -E "^(VIOLATION|DETAIL|KNOWN|NOTE|MACHINERY)" /tmp/seedrun_$ID.txt | head -8
